@@ -82,6 +82,14 @@ fn verif_dir() -> std::path::PathBuf {
         .unwrap_or_else(|| "/verif".into())
 }
 
+/// Where evidence and replay files go: /verif, unless the run targets another checkout (WF_OUT_DIR).
+fn out_dir() -> std::path::PathBuf {
+    match std::env::var("WF_OUT_DIR") {
+        Ok(d) => d.into(),
+        Err(_) => verif_dir(),
+    }
+}
+
 /// Execute one run in this process.
 pub fn execute(prop: &PropDef, ctx: &RunCtx, mode: Mode, tracing: bool) -> RunRecord {
     kernel::begin_run(mode, tracing);
@@ -714,7 +722,7 @@ pub fn driver_main(prop: &PropDef, tier: Tier) -> i32 {
     }
     let mut violation_lines: Vec<String> = Vec::new();
     let mut known_lines: Vec<String> = Vec::new();
-    let replays_dir = verif_dir().join("replays");
+    let replays_dir = out_dir().join("replays");
     let _ = std::fs::create_dir_all(&replays_dir);
     for (sig, f) in &by_sig {
         if let Some((_, _, what)) = known.known.iter().find(|(p, s, _)| p == prop.id && s == sig) {
@@ -831,7 +839,7 @@ pub fn driver_main(prop: &PropDef, tier: Tier) -> i32 {
         "wall_s": wall,
         "violations": violation_lines.len(),
     });
-    let evdir = verif_dir().join("evidence");
+    let evdir = out_dir().join("evidence");
     let _ = std::fs::create_dir_all(&evdir);
     std::fs::write(
         evdir.join(format!("{}.json", prop.id)),
